@@ -275,12 +275,13 @@ impl Condvar {
     where
         F: FnMut(&mut T) -> bool,
     {
-        let start = crate::time::Instant::now();
+        let start_ns = rt::now_ns();
         loop {
             if !condition(&mut *guard) {
                 return Ok((guard, WaitTimeoutResult(false)));
             }
-            let timeout = match dur.checked_sub(start.elapsed()) {
+            let elapsed = Duration::from_nanos(rt::now_ns().saturating_sub(start_ns));
+            let timeout = match dur.checked_sub(elapsed) {
                 Some(t) if !t.is_zero() => t,
                 _ => return Ok((guard, WaitTimeoutResult(true))),
             };
